@@ -1015,7 +1015,7 @@ def run(chk):
     chk.assumptions[:] = [
         "tag semantics, argument acceptance and per-instance state are Section variables of Tpl/Alias.v: the theorems hold for "
         "every tag library whose instances do not share state; validated by the Count-twice cases (two independent sequences)",
-        "fuel models the interpreter's recursion limit: exhausted fuel = RecursionError wrapped into ConfigurationError "
+        "fuel models the interpreter's recursion limit: exhausted fuel = RecursionError reported as TemplateSyntaxError (fix F10) "
         "(observed: status 3 for self-referential and mutually recursive aliases)",
         "an invalid alias that no compiled template uses is never compiled and not reported (DESIGN section 5 reading choice)",
         "the text->tree parser is not part of this model (C10); the harness feeds the real parser's trees to Coq",
